@@ -19,10 +19,110 @@ type execCase struct {
 	Mhi     int  `json:"mhi"`
 	Default bool `json:"default"` // call without a worker limit (uses runtime.NumCPU)
 	Delay   int  `json:"delay"`   // 0 none, 1 yields, 2 yields and short sleeps
+	Conc    int  `json:"conc"`    // > 0: this many goroutines call Execute at the same time (each call is one event)
+	Nest    int  `json:"nest"`    // > 0: the work function calls Execute again, this deep (each level is one event)
+}
+
+// one call Execute(n, work[, m]) observed from inside the work function; `inner`, when set, is run by the first invocation
+func execObserved(k, n, m int, deflt bool, delay int, rnd *prg, inner func()) ev {
+	var mu sync.Mutex
+	type rg struct{ s, e int }
+	var got []rg
+	var finished, started int64
+	delays := make([]int, 0, 8)
+	for i := 0; i < 8; i++ {
+		delays = append(delays, rnd.intn(4))
+	}
+	work := func(s, e int) {
+		idx := atomic.AddInt64(&started, 1)
+		if delay >= 1 {
+			for j := 0; j < delays[int(idx)%8]; j++ {
+				runtime.Gosched()
+			}
+		}
+		if delay >= 2 && delays[int(idx)%8] == 3 {
+			time.Sleep(time.Duration(50+10*delays[int(idx+1)%8]) * time.Microsecond)
+		}
+		if inner != nil && idx == 1 {
+			inner()
+		}
+		mu.Lock()
+		got = append(got, rg{s, e})
+		mu.Unlock()
+		atomic.AddInt64(&finished, 1)
+	}
+	limit := m
+	if deflt {
+		parallel.Execute(n, work)
+		limit = runtime.NumCPU()
+	} else {
+		parallel.Execute(n, work, m)
+	}
+	doneAtReturn := atomic.LoadInt64(&finished)
+	mu.Lock()
+	snap := append([]rg(nil), got...)
+	mu.Unlock()
+	sort.Slice(snap, func(i, j int) bool { return snap[i].s < snap[j].s || (snap[i].s == snap[j].s && snap[i].e < snap[j].e) })
+	starts := make([]int, len(snap))
+	ends := make([]int, len(snap))
+	for i, r := range snap {
+		starts[i], ends[i] = r.s, r.e
+	}
+	return ev{"ev": "exec", "k": k, "n": n, "m": limit, "default": deflt, "starts": starts, "ends": ends,
+		"done_at_return": int(doneAtReturn), "started_at_return": int(atomic.LoadInt64(&started))}
 }
 
 func (d *driver) runExecCase(w emitter, k int, c *execCase) {
 	rnd := newPrg("exec", d.seed, k)
+	if c.Conc > 0 {
+		// many callers at once (more than there are CPUs): every call must still be a complete split
+		for n := c.Nlo; n <= c.Nhi; n++ {
+			evs := make([]ev, c.Conc)
+			var start, done sync.WaitGroup
+			start.Add(1)
+			done.Add(c.Conc)
+			for g := 0; g < c.Conc; g++ {
+				r := newPrg("exec-conc", d.seed, k, n, g)
+				go func(g int) {
+					defer done.Done()
+					start.Wait()
+					evs[g] = execObserved(k, n+g%3, c.Mlo, c.Default, c.Delay, r, nil)
+				}(g)
+			}
+			start.Done()
+			done.Wait()
+			for _, e := range evs {
+				e["conc"] = c.Conc
+				w.emit(e)
+			}
+		}
+		return
+	}
+	if c.Nest > 0 {
+		// re-entrancy: the first invocation of each level calls Execute again
+		for n := c.Nlo; n <= c.Nhi; n++ {
+			var evs []ev
+			var mu sync.Mutex
+			var level func(depth int) func()
+			level = func(depth int) func() {
+				if depth > c.Nest {
+					return nil
+				}
+				return func() {
+					e := execObserved(k, n+depth, c.Mlo, c.Default, 0, newPrg("exec-nest", d.seed, k, n, depth), level(depth+1))
+					e["nest"] = depth
+					mu.Lock()
+					evs = append(evs, e)
+					mu.Unlock()
+				}
+			}
+			level(0)()
+			for _, e := range evs {
+				w.emit(e)
+			}
+		}
+		return
+	}
 	for n := c.Nlo; n <= c.Nhi; n++ {
 		for m := c.Mlo; m <= c.Mhi; m++ {
 			var mu sync.Mutex
